@@ -34,6 +34,7 @@ FLOOR = {'quick': 100, 'thorough': 4000}
 
 NSS = ['/', '/x', '/y']
 NEVER = [0, 10**6, 2**63, 10**30, 999]
+FAULT = 'application callback fault'
 
 
 def strategy(tier):
@@ -63,9 +64,11 @@ def strategy(tier):
         st.fixed_dictionaries({'op': st.just('emit_cb'), 'c': ci,
                                'data': st.just('d')}),
         st.fixed_dictionaries({'op': st.just('ack'), 'c': ci, 'sel': sel,
-                               'args': args, 'dup': st.booleans()}),
+                               'args': args, 'dup': st.booleans(),
+                               'raises': st.just(False)}),
         st.fixed_dictionaries({'op': st.just('ack'), 'c': ci, 'sel': sel,
-                               'args': args, 'dup': st.booleans()}),
+                               'args': args, 'dup': st.booleans(),
+                               'raises': st.booleans()}),
         st.fixed_dictionaries({'op': st.just('end'), 'c': ci,
                                'how': st.sampled_from(['cdisc', 'sdisc',
                                                        'lose'])}),
@@ -119,6 +122,8 @@ def _run(case, w):
     reconnected_since_emit = set()
 
     during_cb = {}      # k -> what happens while callback k is running
+    cb_raises = set()   # callbacks that raise (application fault)
+    faults_seen = [0]
     gates = {}          # k -> future the coroutine callback k waits for
 
     def mk_cb(k):
@@ -130,15 +135,31 @@ def _run(case, w):
                     fut = w.h.loop.create_future()
                     gates.setdefault(k, []).append(fut)
                     await fut
+                if k in cb_raises:
+                    raise RuntimeError(FAULT)
         else:
             def cb(*args):
                 cb_log.append((k, list(args)))
                 fn = during_cb.pop(k, None)
                 if fn is not None and not aio:
                     fn()        # re-entrant delivery (another thread)
+                if k in cb_raises:
+                    raise RuntimeError(FAULT)
         return cb
 
     def check_quiet(step, what):
+        # a raising callback is the application's fault: engine.io contains
+        # and logs it, once per invocation of that callback
+        mine = [e for e in w.h.swallowed
+                if isinstance(e[1], RuntimeError) and str(e[1]) == FAULT]
+        w.h.swallowed[:] = [e for e in w.h.swallowed if e not in mine]
+        faults_seen[0] += len(mine)
+        n_exp_f = len([k_ for k_, _ in cb_log if k_ in cb_raises])
+        if faults_seen[0] != n_exp_f:
+            raise Violation('callback-fault-accounting', 'step %d (%s): %d '
+                            'contained callback faults, %d raising callback '
+                            'invocations' % (step, what, faults_seen[0],
+                                             n_exp_f))
         if w.h.swallowed:
             raise Violation('error-on-ack', 'step %d (%s): engine.io '
                             'contained %r' % (step, what, w.h.swallowed[0]))
@@ -250,6 +271,9 @@ def _run(case, w):
                 if kk is not None:      # None: a timed-out call()'s closure
                     expect_cb.append((kk, list(op['args'])))
             dup = op.get('dup') and kind == 'own' and kk is not None
+            if op.get('raises') and kind == 'own' and kk is not None:
+                cb_raises.add(kk)
+                labels['callback_raises'] = True
             if dup and aio and case.get('coro_cb'):
                 # the first ACK parks in the coroutine callback; a duplicate
                 # of it is processed meanwhile; then the callback finishes
